@@ -114,6 +114,7 @@ def gen_program(draw, pp, cfg, profile=None):
     subs = draw(basic.substance_pool(cfg, max_extra=profile.get('max_extra_subs', 1)))
     g = _Gen(pp, subs)
     world = g.world
+    world.sub_one_in = profile.get('sub_one_in', 10)
     objects = []
     for _ in range(draw(st.integers(1, 3))):
         op = benchgen.gen_container(world, draw, profile)
@@ -123,7 +124,7 @@ def gen_program(draw, pp, cfg, profile=None):
         if out.ok:
             g.bind(op['name'], out.new_entries[0])
             objects.append({'kind': 'container', 'name': op['name'], 'cap': op['cap'], 'contents': op['contents']})
-    for _ in range(draw(st.integers(0, 2)) if profile.get('plates', True) else 0):
+    for _ in range(draw(st.integers(*profile.get('n_plates', (0, 2)))) if profile.get('plates', True) else 0):
         op = benchgen.gen_plate(world, draw, profile)
         out = bench.execute(world, op)
         if out.ok:
@@ -137,7 +138,7 @@ def gen_program(draw, pp, cfg, profile=None):
     # most plates are loaded by a first recipe step (container -> whole plate or a region), so that later steps and
     # the tracking queries see plates whose wells hold something
     for o in list(objects):
-        if o['kind'] != 'plate' or draw(st.integers(0, 3)) == 0:
+        if o['kind'] != 'plate' or draw(st.integers(0, 3)) == 0 or profile.get('level_prefill') == 'always':
             continue
         srcs = [i for i in world.indices('c') if benchgen._nonempty(world, world.pool[i].view)]
         if not srcs:
@@ -151,6 +152,30 @@ def gen_program(draw, pp, cfg, profile=None):
         if out.ok:
             rebind(g, op, out)
             steps.append(step)
+    # fill patterns: every well of a plate is put on one of two or three levels (one transfer per level into the list
+    # of its wells), so that a later fill_to of the plate adds different amounts to irregular groups of wells
+    for o in list(objects):
+        if o['kind'] != 'plate' or not profile.get('level_prefill') or \
+                (profile['level_prefill'] != 'always' and draw(st.integers(0, 2)) == 0):
+            continue
+        pi = g.cur[o['name']]
+        pv = world.pool[pi].view
+        nlev = draw(st.integers(2, 3))
+        level = [[draw(st.integers(0, nlev - 1)) for _ in pv['cols']] for _ in pv['rows']]
+        for lv in range(1, nlev):
+            srcs = [i for i in world.indices('c') if benchgen._nonempty(world, world.pool[i].view)]
+            items = [{'t': 'wstr', 'r': pv['rows'][r], 'c': pv['cols'][c]}
+                     for r in range(len(pv['rows'])) for c in range(len(pv['cols'])) if level[r][c] == lv]
+            if not srcs or not items:
+                continue
+            op = {'op': 'transfer', 'src': {'i': draw(st.sampled_from(srcs))}, 'dst': {'i': g.cur[o['name']], 'sel': {'t': 'list', 'items': items}},
+                  'q': None}
+            op['q'] = benchgen.gen_transfer_quantity(world, draw, dict(profile, q_modes=['frac']), op)
+            step = translate(g, op)
+            out = bench.execute(world, op)
+            if out.ok:
+                rebind(g, op, out)
+                steps.append(step)
     failing = None
     stage_open = None
     stage_no = 0
@@ -557,7 +582,7 @@ def ask_everything(pp, world, rr):
                 pass
 
 
-def baked_pair(col, pp, prog):
+def baked_pair(col, pp, prog, pre_hook=None):
     """Run eager fold and recipe(s); return (world, eager, rr, prog') only if both succeed and agree at every step
     (else count and skip: a disagreement is C08's business, the tracking checks judge only the tracking arithmetic).
     For a chained program the first recipe is baked and questioned, its results are declared to a second recipe, and
@@ -588,6 +613,8 @@ def baked_pair(col, pp, prog):
     if rr.add_exc is not None or rr.bake_exc is not None:
         col.exclude('bake refuses although eager accepts (C08)')
         return None
+    if pre_hook is not None:
+        pre_hook(world, eager, rr, view_prog)
     for key, obj in rr.results.items():
         if key not in eager.env or not same_object(world, bench.view(obj, pp), bench.view(eager.env[key], pp)):
             col.exclude('bake result differs from eager fold (C08)')
@@ -678,9 +705,20 @@ def check_c03(col, pp, cfg, prog):
     col.label('recipe')
     world = bench.World(pp, subs_json=prog['subs'])
     rr = run_recipe(pp, world.real, prog)
+    eager = run_eager(pp, world.real, prog)
     if rr.results is None:
         exc = rr.add_exc[1] if rr.add_exc else rr.bake_exc
         col.label(f"recipe-refused:{type(exc).__name__}")
+        return
+    if isinstance(eager.exc, ValueError):
+        # a step that cannot be carried out (the direct operation refuses it) must make the bake refuse as well
+        div = first_divergence(world, pp, rr, eager, prog)
+        if div == 'fill_to-slice':
+            col.exclude('recipe fill_to on a slice (open finding of C07/C08)')
+        else:
+            failing = step_variant(real_steps(prog)[eager.failed_at])
+            col.report(f"recipe/infeasible-step-baked/{failing}", {'direct_refusal': str(eager.exc)[:160],
+                                                                  'step': eager.failed_at, 'diverged_at': div}, _prog_case(prog))
         return
     mon = Feasible(col)
     for key, obj in rr.results.items():
@@ -695,7 +733,8 @@ def check_c03(col, pp, cfg, prog):
 
 def run_c03(col, pp):
     prof = {'max_steps': 10, 'max_dim': 3, 'q_modes': ['frac'] * 6 + ['over', 'whole', 'zero', 'neg'],
-            'fill_modes': ['fit'] * 6 + ['below', 'over', 'zero', 'neg'], 'keep_failing': True}
+            'fill_modes': ['fit'] * 6 + ['below', 'over', 'zero', 'neg'], 'keep_failing': True, 'solution_over': True,
+            'weights': {'solution': 5, 'transfer': 8}}
     _run_programs(col, pp, check_c03, 100, 1500, prof, 'recipe')
 
 
@@ -718,10 +757,32 @@ def isolate_removes(prog):
     return dict(prog, steps=steps)
 
 
+def remove_steps_as_direct(col, pp):
+    """the object half of C17 inside a recipe: a remove step whose recorded before-state is the state the direct calls
+    reach must record the after-state the direct remove (judged against the reference by the bench half) yields"""
+    def hook(world, eager, rr, prog):
+        for i, (s, rs) in enumerate(zip(real_steps(prog), rr.recipe.steps)):
+            if s['op'] != 'remove' or i + 1 >= len(eager.snapshots):
+                continue
+            key = s['obj']['o']
+            if len(rs.to) < 2 or rs.to[0] is None or rs.to[-1] is None or key not in eager.snapshots[i]:
+                continue
+            col.case()
+            before, after = bench.view(rs.to[0], pp), bench.view(rs.to[-1], pp)
+            if not same_object(world, before, eager.snapshots[i][key]):
+                continue            # an earlier step already went another way (C08 attributes that)
+            col.label('recipe-remove-step:compared-with-direct')
+            if not same_object(world, after, eager.snapshots[i + 1][key]):
+                sel = s['obj'].get('sel', {'t': 'plate'})['t'] if before['k'] == 'p' else 'container'
+                col.report(f"recipe/remove/{sel}/step-result-differs-from-direct-remove", {'step': i},
+                           _prog_case(prog, {'focus': {'step': i}}))
+    return hook
+
+
 def check_c17(col, pp, cfg, prog):
     from refchem.model import split_unit, prefix_f
     prog = isolate_removes(prog)
-    pair = baked_pair(col, pp, prog)
+    pair = baked_pair(col, pp, prog, pre_hook=remove_steps_as_direct(col, pp))
     if pair is None:
         return
     world, eager, rr, prog = pair
@@ -797,7 +858,7 @@ def check_c17(col, pp, cfg, prog):
 
 def run_c17(col, pp):
     prof = {'max_steps': 8, 'max_dim': 3, 'keep_failing': False, 'stages': False, 'dilute_new_name': False,
-            'weights': {'remove': 8, 'transfer': 8, 'dilute': 0, 'solution_from': 0}}
+            'weights': {'remove': 8, 'transfer': 8, 'dilute': 0, 'solution_from': 0}, 'sub_one_in': 4}
     _run_programs(col, pp, check_c17, 100, 1500, prof, 'recipe')
 
 
@@ -894,6 +955,17 @@ def check_c19(col, pp, cfg, prog):
             col.report("recipe-step/fill_to/plate/well-list-unreadable-or-duplicated", {'text': text[:240]}, case)
             continue
         unit_any = next(iter(stated.values()))[1] if stated else None
+        groups = {}
+        for c_, vu in sorted(stated.items()):
+            groups.setdefault(vu, []).append(c_)
+        col.label(f"fill-plate:amount-groups={min(len(groups), 3)}")
+        for ws in groups.values():
+            if any(ws[j][0] == ws[j + 1][0] and ws[j][1] + 1 == ws[j + 1][1] and ws[j + 2][0] > ws[j + 1][0]
+                   and ws[j + 2][1] == ws[j + 1][1] + 1 for j in range(len(ws) - 2)):
+                col.label('fill-plate:row-run-followed-by-well-of-a-later-row-one-column-on')
+            if len({w[0] for w in ws}) > 1 and len({w[1] for w in ws}) > 1 and \
+                    len(ws) != (max(w[0] for w in ws) - min(w[0] for w in ws) + 1) * (max(w[1] for w in ws) - min(w[1] for w in ws) + 1):
+                col.label('fill-plate:group-is-not-a-rectangle')
         for c, vol in added:
             if c in stated:
                 val, unit = stated[c]
@@ -909,7 +981,7 @@ def check_c19(col, pp, cfg, prog):
                     col.report("recipe-step/fill_to/plate/well-not-listed", {'well': list(c), 'true_in_unit': true_shown,
                                                                              'unit': unit_any}, case)
                     break
-            elif vol > extra and vol / 1e-6 >= 0.5:
+            elif vol > extra and (vol - extra) / 1e-6 > 0.5 * 1.000001:      # exactly half a unit may round to 0 and be left out
                 col.report("recipe-step/fill_to/plate/no-amounts-stated", {'well': list(c), 'added_uL': vol / 1e-6}, case)
                 break
         col.nontrivial_key(f"recipe-fill|plate|{unit_any}|{len(stated)}")
@@ -920,8 +992,16 @@ def run_c19(col, pp):
     prof = {'max_steps': 8, 'max_dim': 3, 'keep_failing': False, 'dilute_new_name': False,
             'weights': {'fill_to': 8, 'dilute': 6, 'transfer': 8, 'remove': 1},
             # wells from 50 uL to 25 mL so that the per-well plate text is exercised in uL and in mL
-            'plate_caps': ['50 uL', '0.2 mL', '2 mL', '1e4 uL', '25 mL', '5 mL']}
+            'plate_caps': ['50 uL', '0.2 mL', '2 mL', '1e4 uL', '25 mL', '5 mL'], 'level_prefill': True}
+    if col.shard % 2:
+        prof['max_dim'] = 5          # room for irregular groups of equally filled wells in the per-well text
     _run_programs(col, pp, check_c19, 100, 1500, prof, 'recipe')
+    # fill patterns: one plate whose wells sit on two or three levels in irregular groups, then fill_to over the plate
+    # (the per-well text groups wells of equal amount into address ranges)
+    pat = {'max_steps': 2, 'max_dim': 5, 'keep_failing': False, 'stages': False, 'n_plates': (1, 1), 'level_prefill': 'always',
+           'weights': {'fill_to': 1, 'dilute': 0, 'transfer': 0, 'remove': 0, 'solution': 0, 'solution_from': 0, 'create_container': 0},
+           'fill_plate_bias': True, 'fill_modes': ['fit'], 'plate_caps': ['0.2 mL', '2 mL', '1e4 uL', '5 mL']}
+    _run_programs(col, pp, check_c19, 60, 600, pat, 'fill-patterns')
 
 
 def replay_c19(col, pp, case):
